@@ -20,7 +20,10 @@ harness in a `schema` line, taken from the real descriptors through protoreflect
        ropts := '_' | ropt {';' ropt}     ropt := 'F'<mask> | 'P'<mask>      (WithWritableFields / WithWritablePaths)
        steps := step {'|' step}           step := wopts '@' ['+'] <src>      ('+': Collection.Add of a new item)
        wopts := '_' | wopt {';' wopt}     wopt := 'U'<mask> | 'u'<mask> | 'R'<mask> | 'w'<mask> | 'A'
-                (WithUpdateMask, WithMoreUpdateMask, WithResetMask, WithMoreWritableFields, WithAllFieldsWritable)
+                                                  | 'P'<paths> | 'p'<paths> | 'r'<paths> | 'v'<paths>
+                (WithUpdateMask, WithMoreUpdateMask, WithResetMask, WithMoreWritableFields, WithAllFieldsWritable;
+                 WithUpdatePaths, WithMoreUpdatePaths, WithResetPaths, WithMoreWritablePaths: the constructor
+                 the harness really called, mapped by `WCtor.opt`)
        outcome as for `set`; a panic ends the sequence
   rvalidate <ty> <mask>                             -> true|false          (ResponseFilter.Validate)
   rfilter <mask> <msg>                              -> msg | panic         (ResponseFilter.Filter/FilterClone)
@@ -39,16 +42,23 @@ def pathsOf (m : Option (List Path)) : List Path := m.getD []
 def parseList {α} (f : String → Option α) (s : String) : Option (List α) :=
   if s = "_" then some [] else (s.splitOn ";").mapM f
 
-def parseWOpt (s : String) : Option WOpt :=
-  if s = "A" then some .allWritable
+def parseWCtor (s : String) : Option WCtor :=
+  if s = "A" then some .withAllFieldsWritable
   else
     let rest := (s.drop 1).toString
     match s.front, parseMask rest with
-    | 'U', some m => some (.updateMask m)
-    | 'u', some m => some (.moreUpdateMask m)
-    | 'R', some m => some (.resetMask m)
-    | 'w', some m => some (.moreWritable m)
+    | 'U', some m => some (.withUpdateMask m)
+    | 'P', some (some ps) => some (.withUpdatePaths ps)
+    | 'u', some m => some (.withMoreUpdateMask m)
+    | 'p', some (some ps) => some (.withMoreUpdatePaths ps)
+    | 'R', some m => some (.withResetMask m)
+    | 'r', some (some ps) => some (.withResetPaths ps)
+    | 'w', some m => some (.withMoreWritableFields m)
+    | 'v', some (some ps) => some (.withMoreWritablePaths ps)
     | _, _ => none
+
+/-- One write option as the harness names it: the constructor used, then what it returns. -/
+def parseWOpt (s : String) : Option WOpt := (parseWCtor s).map WCtor.opt
 
 def parseROpt (s : String) : Option ROpt :=
   let rest := (s.drop 1).toString
